@@ -36,14 +36,23 @@ def eval_case(case):
         ver = "1" + ver[1:]
     if case.get("rseed", 0) % 11 == 3 and not ver[0].isdigit():
         # a free-form version is any text: a line feed and a blank inside it (the model's id string is lengthened alike)
-        ver = ver[:1] + "\n " + ver[1:]
+        ins = "\n %s%%"              # ... and per-cent signs, which string formatting takes for directives
+        ver = ver[:1] + ins + ver[1:]
         k = len(x["short"]) + 2
-        toks = toks[:k] + ["\n", " "] + toks[k:]
+        toks = toks[:k] + list(ins) + toks[k:]
     bpver = "".join(digits(rng, 1, False) if t == "D" else t for t in x["bpversion"]) if x["layered"] else None
     date = "20" + digits(rng, 6, False)
     respin = int(digits(rng, x["rlen"]))
     if x["rlen"] == 8 and case.get("worst"):
         respin = int("9" * 8)
+    if case.get("rseed", 0) % 2:
+        # earlier in the same process a compose with an unknown type was refused (what a refusal leaves behind must not matter)
+        try:
+            bad = ComposeInfo()
+            bad.compose.id, bad.compose.date, bad.compose.respin, bad.compose.type = "X-1-20000101.0", "20000101", 0, "release"
+            bad.compose.validate()
+        except ValueError:
+            pass
     ci = ComposeInfo()
     ci.release.name = "Name"
     ci.release.short = x["short"]
